@@ -221,7 +221,18 @@ def must_stored(fn, reset_calls=(), addr_counts=False, callee_summaries=None, pr
         if t is not None and n.get("op") == "=":
             p = t.get("path")
             if p:
-                return state | frozenset({norm(resolve(p))})
+                q = norm(resolve(p))
+                state = state | frozenset({q})
+                # a record all of whose fields have been stored has been stored (token invalidated field by field)
+                if prog is not None and t.k == "MemberExpr" and t.get("record"):
+                    rec = prog.records.get(t["record"])
+                    fld = t.get("member")
+                    if rec and fld and (q.endswith("." + fld) or q.endswith("->" + fld)):
+                        base = q[:-(len(fld) + (1 if q.endswith("." + fld) else 2))]
+                        sep = "." if q.endswith("." + fld) else "->"
+                        if all((base + sep + g["name"]) in state for g in rec["fields"]):
+                            state = state | frozenset({base})
+                return state
         return state
 
     return pg, pg.must(transfer)
